@@ -2798,32 +2798,29 @@ class PlateSlicer(Slicer):
 
     def _get_slice_string(self, item):
         assert isinstance(item, tuple)
-        left, right = item
-        if left.start is None and left.stop is None and right.start is None and right.stop is None:
-            return ':'
-        if left.start is None:
-            left = slice(0, left.stop)
-        if left.stop is None:
-            left = slice(left.start, len(self.plate.row_names))
-        if right.start is None:
-            right = slice(0, right.stop)
-        if right.stop is None:
-            right = slice(right.start, len(self.plate.column_names))
-        if left.stop == left.start + 1 and right.stop == right.start + 1:
-            return f"'{self.plate.row_names[left.start]}:{self.plate.column_names[right.start]}'"
-        else:
-            if left.start == 0 and left.stop == len(self.plate.row_names):
-                left = ':'
+        row_names, column_names = self.plate.row_names, self.plate.column_names
+
+        def describe(axis_slice, names):
+            """ -> (text, index of the only selected entry or None).  A step other than 1 is part of the name. """
+            selected = range(*axis_slice.indices(len(names)))
+            if len(selected) == 0:
+                return "''", None
+            step = selected.step
+            if len(selected) == 1:
+                step = 1
+            if selected[0] == 0 and selected[-1] + step >= len(names):
+                text = ':' if step == 1 else f"::{step}"
             else:
-                left = f"'{self.plate.row_names[left.start]}':'{self.plate.row_names[left.stop - 1]}'"
-            if right.start == 0 and right.stop == len(self.plate.column_names):
-                right = ':'
-            else:
-                right = f"'{self.plate.column_names[right.start]}':'{self.plate.column_names[right.stop - 1]}'"
-            if right == ':':
-                return left
-            else:
-                return f"{left}, {right}"
+                text = f"'{names[selected[0]]}':'{names[selected[-1]]}'" + ('' if step == 1 else f":{step}")
+            return text, (selected[0] if len(selected) == 1 else None)
+
+        left, row = describe(item[0], row_names)
+        right, column = describe(item[1], column_names)
+        if row is not None and column is not None:
+            return f"'{row_names[row]}:{column_names[column]}'"
+        if right == ':':
+            return left
+        return f"{left}, {right}"
 
     def __repr__(self):
         if isinstance(self.slices, list):
